@@ -434,12 +434,35 @@ func (r *rig) peek(n *node, id string) *repos.HTTPDomainMapping {
 	return m
 }
 
-func (r *rig) doUpdate(n *node, m *repos.HTTPDomainMapping, st string) res {
+// doUpdate calls UpdateMapping with the record as its caller holds it and exactly ONE field changed (st names it);
+// otherSub is the subdomain of another name for the fields whose new value is a name.
+func (r *rig) doUpdate(n *node, m *repos.HTTPDomainMapping, st, otherSub string) res {
 	cp := *m
-	if st == "expired" {
+	switch st {
+	case "expired":
 		cp.ExpiresAt = time.Now().Unix() - 3600
-	} else {
+	case "inactive":
 		cp.Status = repos.HTTPDomainMappingStatusInactive
+	case "target": // mutable; the port is what the judge identifies a mapping by, so only the host changes
+		cp.TargetHost = "127.0.0.2"
+	case "desc":
+		cp.Description = "updated"
+	case "created":
+		cp.CreatedAt -= 1000
+	case "client": // immutable fields from here on
+		if cp.ClientID == cidOf["c1"] {
+			cp.ClientID = cidOf["c2"]
+		} else {
+			cp.ClientID = cidOf["c1"]
+		}
+	case "sub":
+		cp.Subdomain = otherSub
+	case "base":
+		cp.BaseDomain = "example.org"
+	case "full":
+		cp.FullDomain = otherSub + "." + baseDomain
+	default:
+		return res{err: "unknown update field " + st}
 	}
 	err := n.repo.UpdateMapping(context.Background(), &cp)
 	return res{ok: err == nil, err: errStr(err)}
@@ -795,9 +818,9 @@ func drive(env *fw.Env, b fw.Behaviour) *fw.Trace {
 			case "Update":
 				id := fmt.Sprintf("hdm_%d", st.ID)
 				m := r.peek(n, id)
-				stt := st.St
+				stt, other := st.St, subOf[st.N]
 				r.log(fw.Event{"ev": "Call", "p": a.name, "op": "Update", "id": id, "st": stt})
-				fn = func() any { return r.doUpdate(n, m, stt) }
+				fn = func() any { return r.doUpdate(n, m, stt, other) }
 			case "List":
 				c := cidOf[st.C]
 				r.log(fw.Event{"ev": "Call", "p": a.name, "op": "List", "c": c})
@@ -1036,12 +1059,16 @@ func driveSpell(beh behaviour) *fw.Trace {
 		r.log(fw.Event{"ev": "Ret", "p": p, "op": "Delete", "ok": out.ok, "err": out.err})
 		return out
 	}
-	upd := func(n *node, id, st string) res {
+	upd := func(n *node, id, st string, other ...string) res {
 		seq++
 		p := fmt.Sprintf("s.%d", seq)
 		m := r.peek(n, id)
+		o := ""
+		if len(other) > 0 {
+			o = other[0]
+		}
 		r.log(fw.Event{"ev": "Call", "p": p, "op": "Update", "id": id, "st": st})
-		out := r.doUpdate(n, m, st)
+		out := r.doUpdate(n, m, st, o)
 		r.log(fw.Event{"ev": "Ret", "p": p, "op": "Update", "ok": out.ok, "err": out.err})
 		return out
 	}
@@ -1062,6 +1089,18 @@ func driveSpell(beh behaviour) *fw.Trace {
 	sweep("app2.tunnox.net")
 	del(n1, 102, a.id) // not the owner
 	sweep("app1.tunnox.net")
+	// UpdateMapping with every field of the record as the only changed one; the immutable ones with values that collide
+	// with the other client's mapping (its subdomain / full domain / client id) and with a free name: whatever the call
+	// answers, who owns and serves which name stays as it is
+	for _, f := range []string{"target", "desc", "created", "client", "sub", "base", "full"} {
+		upd(n0, a.id, f, "app2")
+		sweep("app1.tunnox.net")
+		sweep("app2.tunnox.net")
+	}
+	upd(n0, a.id, "full", "app9")
+	upd(n1, bb.id, "sub", "app9")
+	sweep("app1.tunnox.net")
+	sweep("app2.tunnox.net")
 	upd(n0, a.id, "inactive")
 	sweep("app1.tunnox.net")
 	upd(n1, bb.id, "expired")
@@ -1255,7 +1294,7 @@ func driveFree(env *fw.Env, beh behaviour) *fw.Trace {
 					st := []string{"inactive", "expired"}[o.pick%2]
 					m := r.peek(n, x.id)
 					r.log(fw.Event{"ev": "Call", "p": call, "op": "Update", "id": x.id, "st": st})
-					out := r.doUpdate(n, m, st)
+					out := r.doUpdate(n, m, st, "")
 					r.log(fw.Event{"ev": "Ret", "p": call, "op": "Update", "ok": out.ok, "err": out.err})
 				}
 			}
@@ -1352,6 +1391,7 @@ type mcfg struct {
 	creFaults                       bool
 	readFaults                      bool
 	legStatus                       string // "" = {"active"}
+	updFields                       string // "" = {"inactive", "expired"}
 	onlyList, handler               string // handler: "" = {"p2"}
 	lp                              string // lookup processes ("" = one)
 	emit                            bool
@@ -1381,6 +1421,15 @@ func setOf(s string) string {
 	return s
 }
 
+const allUpdFields = `{"inactive", "expired", "target", "desc", "created", "client", "sub", "base", "full"}`
+
+func updFieldsOf(c mcfg) string {
+	if c.updFields == "" {
+		return `{"inactive", "expired"}`
+	}
+	return c.updFields
+}
+
 func legStatusOf(c mcfg) string {
 	if c.legStatus == "" {
 		return `{"active"}`
@@ -1402,7 +1451,7 @@ func tf(b bool) string {
 	return "FALSE"
 }
 
-const commonInvs = "OwnerOnly LockHeld OnlyHolderUnlocks LookupPure ListPure UpdateClaimsNothing RegisterAtomic Consistent Claimable NoIndexTheft NoShadow LegacyInactiveRejects"
+const commonInvs = "OwnerOnly LockHeld OnlyHolderUnlocks LookupPure ListPure UpdateClaimsNothing UpdateKeepsIdentity RegisterAtomic Consistent Claimable NoIndexTheft NoShadow LegacyInactiveRejects"
 const allInvs = "OneOwner RouteOK " + commonInvs
 const excusedInvs = "OneOwnerX RouteOKX " + commonInvs
 
@@ -1436,7 +1485,7 @@ func job(name string, c mcfg) fw.TLCJob {
 	return fw.TLCJob{Name: name, Module: "Domain", Cfg: "Domain.cfg", Workers: 8, Timeout: 14 * time.Minute,
 		Consts: map[string]string{"P1": c.p1, "P2": c.p2, "LP": lpOf(c), "NAMES": c.names, "MAXOPS": strconv.Itoa(c.maxOps),
 			"MAXLOOK": strconv.Itoa(c.maxLook), "KINDS": c.kinds, "PRE": tf(c.pre), "FAULTS": strconv.Itoa(c.faults), "GUESS": tf(c.guess),
-			"HANDLER": handlerOf(c), "ONLYLIST": setOf(c.onlyList), "CREFAULTS": tf(c.creFaults), "READFAULTS": tf(c.readFaults), "TTLROLLBACK": tf(ttlRollback()), "LEGSTATUS": legStatusOf(c), "SEQ": tf(c.serial), "MAXLEG": strconv.Itoa(c.maxLeg), "FIX": tf(c.fix), "EMIT": tf(c.emit), "INVS": c.invs,
+			"HANDLER": handlerOf(c), "ONLYLIST": setOf(c.onlyList), "CREFAULTS": tf(c.creFaults), "READFAULTS": tf(c.readFaults), "TTLROLLBACK": tf(ttlRollback()), "UPDFIELDS": updFieldsOf(c), "LEGSTATUS": legStatusOf(c), "SEQ": tf(c.serial), "MAXLEG": strconv.Itoa(c.maxLeg), "FIX": tf(c.fix), "EMIT": tf(c.emit), "INVS": c.invs,
 			"SPELL": spellOf(c), "FOLD": tf(!c.nofold), "ONLYDEL": setOf(c.onlyDel), "ONLYCRE": setOf(c.onlyCre), "DEVIATE": setOf(c.deviate), "DELFAULTS": tf(c.delFaults)}}
 }
 
@@ -1495,6 +1544,14 @@ func shadow(emit bool) mcfg {
 func updating(emit bool, looks int) mcfg {
 	return mcfg{p1: `{"p1", "p3"}`, p2: `{"p2"}`, names: `{"n1"}`, kinds: cdu, maxOps: 1, maxLook: looks, pre: true, fix: true, emit: emit,
 		onlyDel: `{"p3"}`, onlyCre: `{"p2"}`}
+}
+
+// updFields: sequential histories over two names in which client c1 (p1) creates / updates / deletes and client c2 (p2)
+// claims; an update changes exactly one field of the record - every field in turn, the immutable ones too (client,
+// subdomain, base domain, full domain; the name-valued ones take the other name)
+func updFields(emit bool, looks int) mcfg {
+	return mcfg{p1: `{"p1"}`, p2: `{"p2"}`, names: `{"n1", "n2"}`, kinds: cdu, maxOps: 2, maxLook: looks, pre: true, serial: true, fix: true, emit: emit,
+		onlyCre: `{"p2"}`, handler: `{}`, updFields: allUpdFields}
 }
 
 // readFault: sequential histories of both clients (create, delete, list, update; lookups) in which any one storage
@@ -1556,6 +1613,7 @@ func genTable(env *fw.Env) []genJob {
 		{"gen:retry", with(retrying(true), allInvs)},
 		{"gen:list", with(listing(true), allInvs)},
 		{"gen:upd", with(updating(true, looks2f), allInvs)}, // quick: the lookups are the driver's probes after every step
+		{"gen:updf", with(updFields(true, looks2f), allInvs)},
 		{"gen:rdf", with(readFault(true), allInvs)},
 		{"gen:shadow", with(shadow(true), excusedInvs)},
 		{"gen:shadowf", with(shadowFault(true), excusedInvs)},
@@ -1581,6 +1639,7 @@ func genTable(env *fw.Env) []genJob {
 			genJob{"legacy:dev:fall-through", deviating(shadowFault(true), `{"expiredFallsThrough", "inactiveFallsThrough", "errFallsThrough", "legacyStatusIgnored"}`)},
 			genJob{"legacy:dev:list-heals", deviating(listf, `{"listHeals", "listErrPrunes"}`)},
 			genJob{"legacy:dev:update-heals", deviating(updating(true, 1), `{"updateHeals"}`)},
+			genJob{"legacy:dev:update-relabels", deviating(updFields(true, 0), `{"updateRelabelsDomain", "updateMovesClient"}`)},
 			genJob{"legacy:dev:unguarded-delete", deviating(retrying(true), `{"unguardedIndexDelete"}`)})
 	}
 	return t
@@ -1664,7 +1723,7 @@ func main() {
 				if strings.HasPrefix(src, "legacy:") {
 					return 400
 				}
-				if src == "gen:opf" || src == "gen:retry" {
+				if src == "gen:opf" || src == "gen:retry" || src == "gen:updf" {
 					return 1500
 				}
 				return 600
